@@ -79,8 +79,8 @@ class C01(Check):
             wants = [0] + T.numbering(nblocks, wrap)
             ev = [(i, 0, T.ack(w)) for i, w in enumerate(wants)]
             yield T.mk_case(content, [], options=[("blksize", "8")], wrap=wrap, events=ev)
-        for wrap in ((0, 1) if not quick else (0,)):
-            nblocks = 65540
+        # exactly 65536 blocks: the short final block is the one numbered `wrap`; 65540: data after the wrap
+        for (wrap, nblocks) in (((0, 65536),) if quick else ((0, 65536), (1, 65536), (0, 65540), (1, 65540))):
             content = bytes(i % 253 for i in range(8 * (nblocks - 1) + 5))
             wants = [0] + T.numbering(nblocks, wrap)
             ev = []
@@ -94,7 +94,17 @@ class C01(Check):
                             t += 1
                 ev.append((t, 0, T.ack(w)))
                 t += 1
-            yield T.mk_case(content, [], options=[("blksize", "8")], wrap=wrap, events=ev)
+            yield T.mk_case(content, [], options=[("blksize", "8")], wrap=wrap, retries=6, events=ev)
+        # handler streams that are io.BufferedIOBase subclasses and still return short reads
+        for _ in range(40 if quick else 400):
+            bs = rng.choice([8, 16, 512])
+            n = rng.randrange(0, 5 * bs)
+            content = bytes(rng.randrange(256) for _ in range(n))
+            ch = [rng.randrange(1, bs + 2) for _ in range(rng.randrange(1, 12))]
+            opts = [("blksize", str(bs))] if bs != 512 else []
+            wants = ([0] if opts else []) + T.numbering(n // bs + 1, 0)
+            ev = [(i + 1, 0, T.ack(w)) for i, w in enumerate(wants)]
+            yield T.mk_case(content, ch, options=opts, kind=("bufshort",), events=ev)
 
     def impl(self, c):
         return T.run_impl(c)
